@@ -107,11 +107,6 @@ def run(cx):
     regs = [n for n in walk_local(psl) if isinstance(n, ast.Call) and norm(n.func) == "lcd_tick_names.add" and [norm(a) for a in n.args] == ["name"]]
     okr = len(anim_ctor) == 1 and len(regs) == 1 and any(isinstance(a, ast.If) and any(x is regs[0] for x in ast.walk(a)) and any(x is anim_ctor[0] for x in ast.walk(a)) for a in pm.ancestors(anim_ctor[0]))
     r.check(okr, "parser/animate-registers-tick", (pm, psl), "the animate arm must add the display to lcd_tick_names in the same block that builds the LCDAnimate node")
-    ploc = Locals(pf)
-    lt = ploc.defs.get("lcd_ticks", [])
-    r.check(len(lt) == 1 and norm(lt[0]) == "[LCDTick(name=name) for name in sorted(ctx.get('lcd_tick_names', set()))]", "parse/one-tick-per-display-sorted", (pm, pf), f"tick list is `{norm(lt[0]) if lt else '?'}`")
-    pre = [n for n in walk_local(pf) if isinstance(n, ast.Assign) and norm(n.targets[0]) == "loop_body" and "lcd_ticks" in norm(n.value)]
-    r.check(len(pre) == 1 and norm(pre[0].value) == "lcd_ticks + loop_body", "parse/ticks-prepended-once", (pm, pf), "ticks must be prepended to the loop body exactly once")
     for n_anim in (1, 2, 3):
         anims = [cls["LCDAnimate"](name="dev", animation=styles[i % len(styles)], row=i % 2, text="H_text_text", speed_ms="H_s", loop="H_l") for i in range(n_anim)]
         res = pe.emit_program(setup=[l2.lcd_decl("i2c")] + anims, loop=[cls["LCDTick"](name="dev")])
@@ -137,7 +132,13 @@ def run(cx):
     # the loop, host-style explicit `lcd.tick()` / `lcd.tick(now)` calls in the loop, under a condition, two displays - the
     # loop body holds exactly one LCDTick per animated display (a tick of a display that never animates is a no-op: not counted)
     tick_sites = [n for q_, f_ in pm.funcs.items() for n in walk_local(f_, include_self=False) if isinstance(n, ast.Call) and call_name(n) == "LCDTick" and pm.enclosing_func(n) is f_]
-    r.check(len(tick_sites) == 1 and pm.enclosing_func(tick_sites[0]) is pf, "parser/LCDTick-built-only-by-the-injection", (pm, tick_sites[-1] if tick_sites else pf), f"LCDTick nodes are constructed at {len(tick_sites)} sites ({sorted({pm.enclosing_func(t_).name for t_ in tick_sites})}); only parse()'s per-display injection may build them, any other site adds a second step per pass")
+    def _only_from_parse(f_):
+        """the function is parse() itself or a helper whose every call site is in parse()"""
+        if f_ is pf:
+            return True
+        sites = [(q_, c_) for q_, g_ in pm.funcs.items() for c_ in walk_local(g_, include_self=False) if isinstance(c_, ast.Call) and call_name(c_) == f_.name]
+        return bool(sites) and all(pm.enclosing_func(c_) is pf for _q, c_ in sites)
+    r.check(len(tick_sites) == 1 and _only_from_parse(pm.enclosing_func(tick_sites[0])), "parser/LCDTick-built-only-by-the-injection", (pm, tick_sites[-1] if tick_sites else pf), f"LCDTick nodes are constructed at {len(tick_sites)} sites ({sorted({pm.enclosing_func(t_).name for t_ in tick_sites})}); only parse()'s per-display injection (or a helper called only from there) may build them, any other site adds a second step per pass")
     head = "from Reduino.Displays import LCD\nfrom Reduino.Utils import sleep\nlcd = LCD(i2c_addr=0x27)\nlcd2 = LCD(rs=12, en=11, d4=5, d5=4, d6=3, d7=2)\nx = 0\n"
     scripts = {
         "animate-before-loop": (head + "lcd.animate('scroll', 0, 'hello world', speed_ms=0)\nwhile True:\n    sleep(10)\n", {"lcd": 1}),
